@@ -395,3 +395,70 @@ Proof.
   intros H. pose proof (accepted_deployments_valid s caller rt H) as V.
   split; [exact V|]. eapply valid_deployments_facts; eauto.
 Qed.
+
+(* ---------- a registered node's entity is always registered ---------- *)
+Definition Inv_owner (s : state) : Prop :=
+  forall id n, aget id (s_nodes s) = Some n -> exists ent, aget (n_ent n) (s_ents s) = Some ent.
+
+Section Owner.
+  Variable addr : N -> N.
+  Variable fixed : bool.
+  Variables maxexp debond : N.
+  Notation stp := (step addr fixed maxexp debond).
+
+  Lemma step_owner s o :
+    tx_op o = true -> Inv_reg s -> Inv_owner s -> Inv_owner (snd (stp s o)).
+  Proof.
+    intros Htx Hreg Hown. destruct o; try discriminate; cbn [step].
+    - destruct (reg_entity_check txs e dsigner sig_ok); try exact Hown. cbn [snd].
+      intros id n Hn. cbn [s_nodes s_ents with_ents with_claims] in Hn |- *.
+      rewrite aget_aset_gen. destruct (e_id e =? n_ent n); [eauto|apply (Hown id n Hn)].
+    - destruct (dereg_entity_check s txs) eqn:EC; try exact Hown. cbn [snd].
+      unfold dereg_entity_check in EC. destruct (has_entity_nodes s txs) eqn:HN; [discriminate|].
+      intros id n Hn. cbn [s_nodes s_ents with_ents with_claims] in Hn |- *.
+      rewrite aget_adel_gen. destruct (N.eqb_spec txs (n_ent n)) as [E|Hne]; [|apply (Hown id n Hn)].
+      exfalso. assert (X : has_entity_nodes s txs = true).
+      { apply (reg_entity_nodes_mirror s txs Hreg). exists id, n. auto. }
+      congruence.
+    - destruct (reg_node_check maxexp s txs n dsigners sig_ok) eqn:EC; try exact Hown. cbn [snd].
+      apply reg_node_ok in EC as ((ent & He & _) & _).
+      match goal with |- Inv_owner (fold_left resume_one ?l ?s0) => use_core l s0 end.
+      intros id m Hm. rewrite HCnodes in Hm. rewrite HCents.
+      cbn [set_node s_nodes s_ents with_status with_nthr with_claims with_nodes with_byent with_addr with_keymap] in Hm |- *.
+      rewrite aget_aset_gen in Hm. destruct (n_id n =? id).
+      + injection Hm as <-. eauto.
+      + apply (Hown id m Hm).
+    - cbn [snd]. unfold epoch_change. intros id n Hn.
+      rewrite epoch_fold_ents. use_mark e (sorted_ids s) (with_epoch s e). rewrite HMents.
+      assert (Hids' : IDS (s_nodes (fold_left (mark_one e) (sorted_ids s) (with_epoch s e))))
+        by (rewrite HMnodes; exact (proj1 Hreg)).
+      destruct (epoch_fold_nodes addr debond e (sorted_ids s) _ Hids') as [_ H].
+      destruct (H id) as [A|[A _]]; rewrite A in Hn; [|discriminate].
+      rewrite HMnodes in Hn. apply (Hown id n Hn).
+    - destruct (reg_runtime_check s caller rt); try exact Hown. cbn [snd].
+      use_ncore s rt. intros id n Hn. rewrite HNnodes in Hn. rewrite HNents. apply (Hown id n Hn).
+    - destruct (aget r (s_rts s)); exact Hown.
+    - status_ops Hown.
+    - status_ops Hown.
+  Qed.
+
+  Lemma owner_hist ops : forall s,
+    Inv_reg s -> Inv_owner s -> forallb tx_op ops = true ->
+    Inv_owner (run addr fixed maxexp debond ops s).
+  Proof.
+    induction ops as [|o r IH]; intros s Hreg Hown Htx; [exact Hown|].
+    cbn [forallb] in Htx. apply andb_true_iff in Htx as [Ho Hr].
+    unfold run. cbn [fold_left]. apply IH; auto.
+    - apply step_reg; auto.
+    - apply step_owner; auto.
+  Qed.
+
+  Lemma owner_from_initial ops id n :
+    forallb tx_op ops = true ->
+    aget id (s_nodes (run addr fixed maxexp debond ops st0)) = Some n ->
+    exists ent, aget (n_ent n) (s_ents (run addr fixed maxexp debond ops st0)) = Some ent.
+  Proof.
+    intros H. apply (owner_hist ops st0 Inv_reg_st0); [|exact H].
+    intros x y Hxy. discriminate.
+  Qed.
+End Owner.
